@@ -159,6 +159,7 @@ pub open spec fn targets_ok(v: Seq<(u64, u64)>, c: Seq<u8>, cs: int) -> bool {
 }
 
 //@extract fn bigtools/src/utils/file.rs split_file_into_chunks_by_size
+//@rule R16
 //@rule R8
 //@sub /f: File/ => f: VLines
 //@sub /io::Result<Vec<\(u64, u64\)>>/ => Result<Vec<(u64, u64)>, IoError>
